@@ -697,6 +697,60 @@ pub fn dead_end_extras() -> Vec<SysSpec> {
     out
 }
 
+/// Hand-built structural corner cases that the one-slot sweeps do not reach (each needs two or three
+/// coordinated slots): init and next of a state being the very same non-constant node, systems in which
+/// every state lacks a next function, constant states with an init value, inputs read only by init
+/// expressions, free (init-less and next-less) states feeding a counter. Names start with `X`.
+/// systems whose init expressions read inputs (s0 = init(i0), coupled with the input of step 0)
+pub const INIT_INPUT_EXTRAS: bool = true;
+
+pub fn corner_extras() -> Vec<SysSpec> {
+    let st = |n: &str, w: u32, init: Option<T>, next: Option<T>| StateSpec { name: n.into(), ty: Ty::Bv(w), init, next };
+    let mk = |name: &str, inputs: Vec<(&str, u32)>, states: Vec<StateSpec>, bads: Vec<T>, constraints: Vec<T>| SysSpec {
+        name: name.into(),
+        inputs: inputs.into_iter().map(|(n, w)| (n.to_string(), Ty::Bv(w))).collect(),
+        states,
+        outputs: vec![],
+        bads,
+        constraints,
+    };
+    let a = || s("a2", 2);
+    let bb = || s("b2", 2);
+    let c = || s("c2", 2);
+    let e = || s("a1", 1);
+    let f = || s("b1", 1);
+    let inc = |t: T| b(Bin::Add, t, l(2, 1));
+    let mut out = vec![];
+    // delayed copy: init and next of b2 are the same node, which is not constant over time
+    out.push(mk("X-delaycopy", vec![], vec![st("a2", 2, Some(l(2, 0)), Some(inc(a()))), st("b2", 2, Some(a()), Some(a()))], vec![b(Bin::Eq, bb(), l(2, 2))], vec![]));
+    out.push(mk("X-delaycopy", vec![], vec![st("a2", 2, Some(l(2, 0)), Some(inc(a()))), st("b2", 2, Some(inc(a())), Some(inc(a())))], vec![b(Bin::Eq, bb(), l(2, 3))], vec![]));
+    out.push(mk(
+        "X-delaycopy",
+        vec![("b1", 1)],
+        vec![st("a2", 2, Some(l(2, 0)), Some(b(Bin::Add, a(), T::ZExt(1, Box::new(f()))))), st("b2", 2, Some(a()), Some(a())), st("c2", 2, Some(bb()), Some(bb()))],
+        vec![b(Bin::Eq, c(), l(2, 1))],
+        vec![],
+    ));
+    // every state lacks a next function (free after step 0), one has an init that excludes bad at step 0
+    out.push(mk("X-armed", vec![("b1", 1)], vec![st("a1", 1, Some(l(1, 0)), None)], vec![b(Bin::And, e(), f())], vec![]));
+    out.push(mk("X-armed", vec![("b1", 1)], vec![st("a1", 1, Some(l(1, 0)), None), st("a2", 2, None, None)], vec![b(Bin::And, e(), b(Bin::Eq, a(), l(2, 3)))], vec![f()]));
+    out.push(mk("X-armed", vec![], vec![st("a2", 2, Some(l(2, 1)), None)], vec![b(Bin::Eq, a(), l(2, 2))], vec![T::not(b(Bin::Eq, a(), l(2, 3)))]));
+    // constant state (next = itself) with an init value, added to a counter
+    out.push(mk("X-constinit", vec![], vec![st("c2", 2, Some(l(2, 1)), Some(c())), st("a2", 2, Some(l(2, 0)), Some(b(Bin::Add, a(), c())))], vec![b(Bin::Eq, a(), l(2, 3))], vec![]));
+    out.push(mk("X-constinit", vec![("b1", 1)], vec![st("c2", 2, Some(l(2, 3)), Some(c())), st("a2", 2, Some(c()), Some(b(Bin::Sub, a(), T::ZExt(1, Box::new(f())))))], vec![b(Bin::Eq, a(), l(2, 1))], vec![]));
+    // constant state without init shared by an init expression and the bad state
+    out.push(mk("X-constfree", vec![], vec![st("c2", 2, None, Some(c())), st("a2", 2, Some(c()), Some(inc(a())))], vec![b(Bin::And, b(Bin::Eq, a(), l(2, 0)), b(Bin::Eq, c(), l(2, 2)))], vec![]));
+    // inputs read by init expressions: also by next / by nothing else
+    if INIT_INPUT_EXTRAS { out.push(mk("X-initinput", vec![("b2", 2)], vec![st("a2", 2, Some(bb()), Some(b(Bin::Add, a(), bb())))], vec![b(Bin::Eq, a(), l(2, 3))], vec![])); }
+    if INIT_INPUT_EXTRAS { out.push(mk("X-initinput", vec![("b2", 2)], vec![st("a2", 2, Some(b(Bin::And, bb(), l(2, 1))), Some(inc(a())))], vec![b(Bin::Eq, a(), l(2, 3))], vec![])); }
+    if INIT_INPUT_EXTRAS { out.push(mk("X-initinput", vec![("b2", 2), ("b1", 1)], vec![st("a2", 2, Some(bb()), Some(inc(a())))], vec![b(Bin::Eq, a(), l(2, 2))], vec![T::not(b(Bin::Eq, bb(), l(2, 2))), f()])); }
+    // a free state (neither init nor next) feeding a counter
+    out.push(mk("X-freefeed", vec![], vec![st("a2", 2, None, None), st("b2", 2, Some(l(2, 0)), Some(b(Bin::Add, bb(), a())))], vec![b(Bin::Eq, bb(), l(2, 3))], vec![b(Bin::Ugt, l(2, 2), a())]));
+    // a bad state that is at once a constraint root; a bad state that is a bare state symbol of width 1
+    out.push(mk("X-rootshare", vec![("b1", 1)], vec![st("a1", 1, Some(l(1, 0)), Some(b(Bin::Or, e(), f())))], vec![e(), b(Bin::And, e(), f())], vec![T::not(b(Bin::And, e(), f()))]));
+    out
+}
+
 pub fn skeleton(name: &str) -> Skeleton {
     skeletons().into_iter().find(|k| k.name == name).unwrap_or_else(|| panic!("no skeleton {name}"))
 }
